@@ -215,7 +215,7 @@ func c01(c *Ctx) {
 		})
 	}
 	// (c) body shapes: every JSON-mapping feature as request and response (one package each)
-	feats := sampleFeats(c, corpus.Features(), 3)
+	feats := sampleFeats(c, corpus.Features(), 2)
 	for i, ft := range feats {
 		fp := corpus.BuildFeaturePkg(ft, i, "c01b", "", corpus.NewNames(c.Rng("names:"+ft.ID)), true, []string{"top"})
 		ft := ft
@@ -335,13 +335,23 @@ func c01(c *Ctx) {
 	}
 }
 
-// thin keeps the first 3 values and every k-th of the rest (seed offset).
+// thin keeps the first 3 values, every value whose class is a boundary that emitted codecs
+// treat specially (unset / empty / set-but-empty / extremes), and every k-th of the rest (seed offset).
 func thin(in []values.LMsg, k, seed int) []values.LMsg {
 	var out []values.LMsg
 	for i, v := range in {
-		if i < 3 || (i+seed)%k == 0 {
+		if i < 3 || priorityClass(v.Class) || (i+seed)%k == 0 {
 			out = append(out, v)
 		}
 	}
 	return out
+}
+
+func priorityClass(c string) bool {
+	for _, suf := range []string{":unset", ":msg-empty", ":msg-unset", ":empty", ":list-empty", ":map-empty", ":max", ":min", ":gt2p53", ":zero", ":enum-zero", ":ts-pre-epoch", ":ts-nanos", ":false", ":all-bytes", ":nonascii-bmp"} {
+		if strings.HasSuffix(c, suf) {
+			return true
+		}
+	}
+	return false
 }
